@@ -888,7 +888,19 @@ func main() {
 		in := g.precompileInput(addr)
 		p := rawPrecompiles[precompileAddr(addr)]
 		op := fmt.Sprintf("pgas %d %s", addr, hexTok(in))
-		out.Do(op, func() string { return strconv.FormatUint(p.RequiredGas(in), 10) })
+		out.Do(op, func() string {
+			gas := p.RequiredGas(in)
+			cls := "skip"
+			if gas <= 3000000 {
+				// cheap enough to execute: did Run's input-length gate let it through?
+				_, err := p.Run(in)
+				cls = "run"
+				if err != nil && (err.Error() == "invalid input length" || err.Error() == "bad elliptic curve pairing size") {
+					cls = "lenerr"
+				}
+			}
+			return strconv.FormatUint(gas, 10) + " " + cls
+		})
 	}
 	kinds := []string{}
 	for k, v := range genKinds {
